@@ -4,6 +4,7 @@ import (
 	"go/ast"
 	"go/token"
 	"go/types"
+	"golang.org/x/tools/go/packages"
 	"strings"
 )
 
@@ -83,6 +84,13 @@ func classifyMapRange(f *Func, rs *ast.RangeStmt, extraPure map[string]bool) (st
 		name := CalleeName(info, call)
 		if pureCalls[name] || extraPure[name] {
 			return true
+		}
+		// a helper of the same package that did not exist on the reference tree (an extracted
+		// function) and that only computes: no assignment outside its locals, no call but pure ones
+		if fn, isFn := Callee(info, call).(*types.Func); isFn && fn != nil && fn.Pkg() == f.Pkg.Types && !isReferenceFunc(strings.ReplaceAll(fn.FullName(), Mod+"/", "")) {
+			if decl := declOf(f.Pkg, fn); decl != nil && computesOnly(f.Pkg.TypesInfo, decl) {
+				return true
+			}
 		}
 		return false
 	}
@@ -559,4 +567,80 @@ func singleEntryGuard(f *Func, rs *ast.RangeStmt) bool {
 		}
 	}
 	return false
+}
+
+// declOf finds the declaration of fn in pkg.
+func declOf(pkg *packages.Package, fn *types.Func) *ast.FuncDecl {
+	for _, file := range pkg.Syntax {
+		for _, d := range file.Decls {
+			if fd, ok := d.(*ast.FuncDecl); ok && pkg.TypesInfo.Defs[fd.Name] == fn {
+				return fd
+			}
+		}
+	}
+	return nil
+}
+
+// computesOnly: the function body assigns only variables it declares, does not
+// send, go or defer, and calls only builtins, conversions and the known pure
+// functions (one level: callees are not followed).
+func computesOnly(info *types.Info, fd *ast.FuncDecl) bool {
+	if fd.Body == nil {
+		return false
+	}
+	ok := true
+	local := func(e ast.Expr) bool {
+		id, isID := Unparen(e).(*ast.Ident)
+		if !isID {
+			return false
+		}
+		o := ObjOf(info, id)
+		return o != nil && o.Pos() >= fd.Pos() && o.Pos() <= fd.End()
+	}
+	ast.Inspect(fd.Body, func(n ast.Node) bool {
+		switch x := n.(type) {
+		case *ast.AssignStmt:
+			for _, l := range x.Lhs {
+				if id, isID := l.(*ast.Ident); isID && id.Name == "_" {
+					continue
+				}
+				if !local(l) {
+					ok = false
+				}
+			}
+		case *ast.IncDecStmt:
+			if !local(x.X) {
+				ok = false
+			}
+		case *ast.SendStmt, *ast.GoStmt, *ast.DeferStmt, *ast.FuncLit:
+			ok = false
+		case *ast.CallExpr:
+			if tv, isT := info.Types[x.Fun]; isT && tv.IsType() {
+				return true
+			}
+			if id, isID := Unparen(x.Fun).(*ast.Ident); isID {
+				if _, isBuiltin := info.Uses[id].(*types.Builtin); isBuiltin && pureCalls[id.Name] {
+					return true
+				}
+			}
+			name := CalleeName(info, x)
+			if pureCalls[name] {
+				return true
+			}
+			// interface methods that name things are treated as pure accessors when they take no argument
+			if len(x.Args) == 0 {
+				if se, isSel := x.Fun.(*ast.SelectorExpr); isSel && info.Selections[se] != nil {
+					return true
+				}
+			}
+			ok = false
+		}
+		return ok
+	})
+	return ok
+}
+
+func isReferenceFunc(name string) bool {
+	_, ok := referenceFuncs[name]
+	return ok
 }
